@@ -649,3 +649,13 @@ End EndToEnd2DocExample.
 Print Assumptions C03_doc_tree_core2_partial.
 Print Assumptions C03_end_to_end2_doc_partial.
 Print Assumptions C03_end_to_end2_doc_nonvacuous.
+
+(** the extended theorem subsumes the one of the core grammar: a core document that is core for
+    [doc_cores] is, embedded by [up_doc] ([C02_core_grammar_embeds]: same written form, [ok_doc2]),
+    core for [doc_cores2] with the same items — so [C03_end_to_end_partial] is an instance of
+    [C03_end_to_end2_doc_partial] ([Proofs/Compose2RenderEmbed.v: end_to_end_from_extended]) *)
+From PLV Require Import Proofs.Compose2RenderEmbed.
+Theorem C03_doc_cores_embeds : forall lt cx kbg (d : DocGrammar.doc) ks,
+  doc_cores lt cx d = Some ks -> doc_cores2 lt cx kbg (up_doc d) = Some ks.
+Proof. exact doc_cores_embed. Qed.
+Print Assumptions C03_doc_cores_embeds.
